@@ -90,6 +90,21 @@ theorem stepThread_live {s : State} (hg : Good crc pl blob s) (tid k : Nat) (hl 
     case setCommitted => intro _; left; rfl
     case done => exact hl
 
+theorem core_live0 (s : State) (hnc : s.inCache = false) : Live (openTorrentCore s) := by
+  unfold openTorrentCore
+  rw [hnc]
+  simp only [Bool.false_eq_true, if_false]
+  split
+  · intro _; left; rfl
+  · rename_i hne
+    intro hn
+    simp only at hn
+    exact absurd (Nat.le_antisymm List.count_le_length hn) hne
+
+theorem init_live (mi : MetaInfo) : Live (init mi) := by
+  unfold init openTorrent
+  split <;> exact core_live0 _ rfl
+
 theorem step_live {s : State} (hg : Good crc pl blob s) (a : Action) (hl : Live s) :
     Live (step crc s a) := by
   cases a with
@@ -117,20 +132,10 @@ theorem step_live {s : State} (hg : Good crc pl blob s) (a : Action) (hl : Live 
           simp only at hn
           exact absurd (Nat.le_antisymm List.count_le_length hn) hne
     · exact hl
-
-theorem core_live (s : State) (hnc : s.inCache = false) : Live (openTorrentCore s) := by
-  unfold openTorrentCore
-  rw [hnc]
-  simp only [Bool.false_eq_true, if_false]
-  split
-  · intro _; left; rfl
-  · rename_i hne
-    intro hn
-    simp only at hn
-    exact absurd (Nat.le_antisymm List.count_le_length hn) hne
-
-theorem init_live (mi : MetaInfo) : Live (init mi) := by
-  unfold init openTorrent
-  split <;> exact core_live _ rfl
+  | recreate =>
+    simp only [step]
+    split
+    · exact init_live _
+    · exact hl
 
 end KrakenModel.Proof.C03
